@@ -31,6 +31,12 @@ def programs(tier):
             out.append(("par", {"name": f"par[most[{tag}],S]",
                                 "seq": [{"k": "par", "branches": [[st], [{"k": "step", "fn": {"ret": 3}}]],
                                          "cfg": {"cc": "all_completed"}}]}))
+    # the branch is resumed in-process by its own timer while a sibling is still running
+    for rn, bn in (("t1", "fail1"), ("t12", "fail2"), ("t12", "always")):
+        st = most_step(rn, bn)
+        out.append(("resume", {"name": f"par[most[{rn}/{bn}],slow]", "seq": [
+            {"k": "par", "cfg": {"cc": "all_completed"}, "branches": [
+                [st, {"k": "step", "fn": {"ret": "next"}}], [{"k": "step", "fn": {"sleep": 6, "then": {"ret": "slow"}}}]]}]}))
     return out
 
 
@@ -42,6 +48,11 @@ def space(tier):
         two = (place == "alone") or not quick
         units.append(({"program": p, "cfg": {"env_kinds": ["crash"]}},
                       {"crash": 2 if two else 1, "total": 2 if two else 1}, cap))
+        if place == "resume":
+            # ... and the service is slow to flip the retry from PENDING to READY (the refreshed state still says PENDING
+            # with a timestamp in the past)
+            for lag in (0.3, 1.5):
+                units.append(({"program": p, "cfg": {"env_kinds": ["crash"], "timer_lag": lag}}, {"crash": 1, "total": 1}, cap))
         if place in ("alone", "par"):
             for pol in ("low", "high"):
                 units.append(({"program": p, "cfg": {"env_kinds": ["crash"], "policy": pol}},
@@ -53,4 +64,6 @@ simcheck.install(globals(), "C04", [monitors.judge_c04], space,
                  "one at-most-once step x placements {alone, after a step, in a child context, in a parallel branch} "
                  "x retry strategies {none, table[1], table[1,2], table filtered to Boom (StepInterruptedError not "
                  "retried), default preset} x behaviours {ok, fail once, fail twice, always fail}; every crash point "
-                 "(pairs of crash points for the stand-alone placement; thorough: pairs everywhere); policies rtb/low/high")
+                 "(pairs of crash points for the stand-alone placement; thorough: pairs everywhere); policies rtb/low/high; "
+                 "three programs whose branch is resumed in-process by its retry timer next to a running sibling, also with a "
+                 "backend that flips PENDING to READY 0.3 / 1.5 s late")
